@@ -1,71 +1,4 @@
-"""Per-property configuration for ./check (what is proved, what is trusted, how cases are made)."""
-
-KERNEL = "Lean 4.33.0 kernel; axioms allowed: propext, Classical.choice, Quot.sound (checked per theorem by #print axioms); no sorry/native_decide/own axioms"
-HARNESS = "correspondence harness (vharness): case generators, fragment containment on whitespace-normalised text, s-expression printer"
-
-PROPS = {
-    "C11": {
-        "rule": "random C-like enums (1..8 variants quick, up to 40 thorough; explicit/implicit/negative/non-monotonic/i32-boundary discriminants, contiguous and broken-prefix shapes); distinct = distinct variant lists; every generated enum is non-trivial (has >= 1 variant and is rendered by six backends)",
-        "trusted_base": [
-            KERNEL, HARNESS,
-            "modelled not verified: meaning of the printed tables in C/C++/JS (validated each run by gcc, g++ and node on the real outputs), Dart, Kotlin/JNA and nanobind (documented semantics; SDKs absent)",
-            "rustc's discriminant rule is validated each run by compiling the sampled enums with rustc",
-        ],
-        "assumptions": [
-            "Dart `index`/`values[i]`/`firstWhere`, Kotlin `ordinal`/`entries[i]`/`when`, nanobind `.value(name, cpp_enumerator)` behave as their language documentation says (A-dart, A-jna)",
-            "variant names are single capitalised words (no heck case-splitting is modelled)",
-        ],
-    },
-    "C16": {
-        "rule": "UTF-8: all byte strings of length <= 2 and (quick) all 3-byte strings with leads E0/ED/EF/41/7F/80/C1/C2/DF/E1/F0/F4/F5 and 4-byte strings with leads F0/F4 x boundary second bytes, (thorough) all strings of length <= 3 and all 4-byte strings with lead F0..F4, via 65536-bit acceptance masks, plus random near-valid longer strings; views: every primitive element type x lengths (0..64) x {ref, mut, owned, NULL+0, str, owned str}; distinct = distinct protocol lines",
-        "trusted_base": [
-            KERNEL, HARNESS,
-            "modelled not verified: Rust reference/Box non-nullness and `&[]`/NonNull::dangling being non-null; core::str::from_utf8 is exercised as the implementation under test through diplomat_is_str",
-            "the harness's reference decoder (Unicode D92 definition) used as oracle for diplomat_is_str",
-        ],
-        "assumptions": [
-            "debug assertions are off in the harness build (NULL views with non-zero length are not exercised; the property only speaks of NULL+0)",
-            "diplomat_alloc/diplomat_free are not modelled (std allocator pass-through)",
-        ],
-    },
-    "C12": {
-        "tables": ["RuntimeTypes"],
-        "rule": "random write histories: caller-supplied writers (initial capacity 0..40, optional pre-filled text, 0..12 chunks incl. empty and multi-byte UTF-8, scripted grow answers refuse / grant requested+extra), fixed-buffer writers (size 1..65), Rust-owned writers; distinct = distinct protocol lines; non-trivial = at least one chunk",
-        "trusted_base": [
-            KERNEL, HARNESS,
-            "translator: field lists of DiplomatWrite read from runtime/src/write.rs (syn) and capi.h.jinja (small C declaration parser)",
-            "modelled not verified: fmt::Write call protocol, ptr::copy_nonoverlapping as per-byte stores, Vec::reserve as allocate-copy (capacity of Rust-owned buffers is not compared)",
-            "C++ WriteFromString adaptor: tied by exact text of _grow/_flush/WriteFromString in the generated diplomat_runtime.hpp; std::string::resize semantics assumed (A-cpp)",
-        ],
-        "assumptions": [
-            "grow callbacks honour the documented contract (new capacity >= requested, old contents copied); answers violating it are outside the property",
-            "fixed-buffer writers are created with size >= 1 (size 0 underflows in the code; excluded by the property's quantifier)",
-            "real allocator failure inside Vec::reserve aborts and cannot be scripted",
-        ],
-    },
-    "C17": {
-        "rule": "hand-written documented examples + random configurations: 8 target spellings x subsets of 17 keys (shared, language-scoped for kotlin/js/nanobind/demo_gen, backend-specific, unknown) x three sources (config.toml with kebab or snake spelling and tables; --config k=v with bare or quoted text; #[diplomat::config] on struct/mod/impl items) x well-typed and (1/12) ill-typed values; distinct = distinct protocol lines; non-trivial = at least one source non-empty",
-        "trusted_base": [
-            KERNEL, HARNESS,
-            "key strings are parsed into (scope, name) by the model driver with String.splitOn; keys with two or more dots are not generated",
-            "modelled not verified: toml crate parsing, heck::AsSnakeCase restricted to lowercase/digit/_/- keys, syn parsing of the attribute; clap argument splitting (main.rs) is bypassed: the harness calls Config::read_file/read_cli_settings and the hook effective_config in main.rs's order",
-        ],
-        "assumptions": [
-            "config.toml does not contain the same key in both kebab and snake spelling (iteration order of toml::Table would decide)",
-            "values are strings without escapes, booleans or integers",
-        ],
-    },
-    "C13": {
-        "tables": ["AttrSupport"],
-        "rule": "exhaustive small formulas (atoms: 7 backend names, *, 4 supports flags; not/any/all to depth 2) x 7 backends through a one-type module; random bridge modules (1-3 opaque types, 1-2 impl blocks, 1-2 methods) with 0-2 attributes (disable / rename with and without {0}) on module, type, impl and method, formulas to depth 3 incl. unknown names, unknown supports values and auto (error paths) x 7 backends; metamorphic oracle: remove one attribute and compare all 7 real backend outputs; distinct = distinct protocol lines",
-        "trusted_base": [
-            KERNEL, HARNESS,
-            "translator: `match value` arms of is_name_value read with syn; backend flags obtained by calling the real attr_support() through the cfg-guarded hook",
-            "modelled not verified: syn parsing of #[diplomat::attr(...)], the rest of Attrs::from_ast (special methods, namespace, error, demo attrs are outside C13 and counted as errors by the model)",
-        ],
-        "assumptions": [
-            "only opaque types with &self methods are generated (the attribute machinery is the same for structs/enums; enum variants do not inherit disable)",
-            "rename rendering is checked at the HIR level (pattern carried by the item); the spelling in each backend's files is covered by the metamorphic byte-identity oracle only",
-        ],
-    },
-}
+"""Per-property configuration for ./check (what is proved, what is trusted, how cases are made).
+The data lives in props.json next to this file."""
+import json, os
+PROPS = json.load(open(os.path.join(os.path.dirname(os.path.abspath(__file__)), "props.json")))
